@@ -18,7 +18,7 @@ _reg('portable', ['P1', 'P3', 'P4'])
 _reg('a64', ['N0', 'N1', 'N5'])
 _reg('a64frame', ['N3', 'N6', 'N4'])
 _reg('rv64', ['V0', 'V1', 'V5'])
-_reg('rv64frame', ['V3', 'V6'])
+_reg('rv64frame', ['V3', 'V6', 'V4'])
 
 PROPS = {
  'C11': dict(level='other', lemmas=['B1', 'B2', 'B3', 'B4', 'B5'],
@@ -37,9 +37,9 @@ PROPS = {
  'C04': dict(level='translation_validation', lemmas=['X0', 'X1', 'J1', 'J3', 'J4', 'A4', 'I1'],
    files=['src/jit_compiler_x86.cpp', 'src/jit_compiler_x86.hpp', 'src/jit_compiler_x86_static.S', 'src/bytecode_machine.cpp', 'src/bytecode_machine.hpp', 'src/vm_interpreted.cpp', 'src/vm_compiled.cpp', 'src/instruction_weights.hpp'],
    explanation='TODO', trusted=['x86-64 semantics of engine/x86sem.py (Intel SDM transcription for the ~60 forms used)', 'doc/specs.md chapter 5 transcription'], outside=[]),
- 'C20': dict(level='translation_validation', lemmas=['V0', 'V3', 'V5', 'V6', 'V1'],
-   claim='PARTIAL: per-instruction translation validation of the scalar RISC-V emitters (h_*, emitImm32, genAddress*, loadFromScratchpad, emitRcpLiteral1) against the specification step, validation of the generated SuperscalarHash routine (generateSuperscalarHash + runtime templates) against specification 7.3, and of the hand-written program loop as generateProgram stitches it (full and light mode, v1) against specification 4.6, under an RV64GC model whose decoder is cross-checked against LLVM and whose semantics are an unvalidated transcription of the ISA manual; v2 (software-AES F/E mix) and the vector back-end are outside the claim. Bounds are listed in the evidence.',
-   technique='symbolic execution of the emitter (clang LLVM IR, own interpreter), execution of the emitted RV64GC code under an RV64 semantics written for this task (engine/rv64sem.py), SMT (z3) equivalence with the specification step per obligation; lemmas: V0,V3,V5,V6,V1',
+ 'C20': dict(level='translation_validation', lemmas=['V0', 'V3', 'V4', 'V5', 'V6', 'V1'],
+   claim='PARTIAL: per-instruction translation validation of the scalar RISC-V emitters (h_*, emitImm32, genAddress*, loadFromScratchpad, emitRcpLiteral1) against the specification step, validation of the generated SuperscalarHash routine (generateSuperscalarHash + runtime templates) against specification 7.3, and of the hand-written program loop as generateProgram stitches it (full and light mode, v1 and v2 with its software-AES F/E mix) against specification 4.6, under an RV64GC model whose decoder is cross-checked against LLVM and whose semantics are an unvalidated transcription of the ISA manual; the vector back-end and the Zba/Zbb emitter variants are outside the claim. Bounds are listed in the evidence.',
+   technique='symbolic execution of the emitter (clang LLVM IR, own interpreter), execution of the emitted RV64GC code under an RV64 semantics written for this task (engine/rv64sem.py), SMT (z3) equivalence with the specification step per obligation; lemmas: V0,V3,V4,V5,V6,V1',
    files=['src/jit_compiler_rv64.cpp', 'src/jit_compiler_rv64.hpp', 'src/jit_compiler_rv64_static.S', 'src/jit_compiler_rv64_static.hpp', 'src/jit_compiler.hpp', 'doc/specs.md'],
    explanation='TODO', trusted=['RV64GC semantics of engine/rv64sem.py (ISA manual transcription for the ~60 forms used; decoding cross-checked against LLVM, semantics not validated on hardware)', 'doc/specs.md chapter 5 transcription'], outside=[]),
  'C19': dict(level='translation_validation', lemmas=['N0', 'N3', 'N4', 'N5', 'N6', 'N1'],
